@@ -206,6 +206,22 @@ func loadOfField(v ssa.Value, f *types.Var) bool {
 	return lf != nil && lf == f
 }
 
+// recvPtr maps a receiver argument to the pointer it was loaded from when the method has a value
+// receiver (`(*p).M()` passes a struct copy `*p`).
+func recvPtr(v ssa.Value) ssa.Value {
+	if u, ok := v.(*ssa.UnOp); ok && u.Op == token.MUL {
+		if _, isStruct := u.Type().Underlying().(*types.Struct); isStruct {
+			return u.X
+		}
+	}
+	return v
+}
+
+// recvIsField: the receiver argument is (a copy of) the object loaded from field f.
+func recvIsField(v ssa.Value, f *types.Var) bool {
+	return loadOfField(recvPtr(v), f)
+}
+
 // callResult0 returns the call behind v when v is the call itself or Extract #idx of it.
 func callOf(v ssa.Value, idx int) *ssa.Call {
 	v = kit.Strip(v)
